@@ -61,11 +61,13 @@ def _copy_h5_element(
         if current_location not in excluded_datasets:
             src_dataset = src_handle[current_location]
             chunks = src_dataset.chunks
+            if src_dataset.size == 0:
+                chunks = None
             if chunks is None:
                 dst_dataset = dst_handle.create_dataset(
                     current_location,
                     data=src_dataset,
-                    chunks=src_dataset.chunks,
+                    chunks=chunks,
                     compression=src_dataset.compression,
                     compression_opts=src_dataset.compression_opts)
             else:
